@@ -54,6 +54,14 @@ def load_engine(prop: str):
     return eng
 
 
+def default_tmp() -> str:
+    """Scratch space of a run (created and removed by the run itself): RAM-backed if available, else next to the evidence."""
+    shm = '/dev/shm'
+    if os.path.isdir(shm) and os.access(shm, os.W_OK):
+        return os.path.join(shm, f'verif_tmp_{os.getuid()}')
+    return os.path.join(HERE, '.tmp')
+
+
 def load_known_findings():
     p = os.path.join(HERE, 'known_findings.json')
     if not os.path.exists(p):
@@ -109,10 +117,9 @@ def replay_main(path: str) -> int:
         for e in res.get('events', []):
             print(json.dumps(e, sort_keys=True))
     if v:
-        same = v['class'] == rp['violation']['class'] and res['digest'] == rp.get('digest')
         print(f"REPRODUCED class={v['class']} digest_match={res['digest'] == rp.get('digest')}")
         print(f'VIOLATION property={prop} replay={path}')
-        return 1 if same or True else 1
+        return 1
     print('NOT-REPRODUCED')
     return 0
 
@@ -145,10 +152,10 @@ def fresh_interpreter_digests(prop, tier, seeds, hashseed: str):
 def check_main(prop: str, tier: str) -> int:
     t_start = time.monotonic()
     batch_seed = int(os.environ.get('VERIF_SEED', '0'))
-    workers = int(os.environ.get('VERIF_WORKERS', str(os.cpu_count() or 4)))
+    workers = int(os.environ.get('VERIF_WORKERS', str(len(os.sched_getaffinity(0)) or 4)))
     eng = load_engine(prop)
     budget = float(os.environ.get('VERIF_BUDGET_S', eng.BUDGET[tier]))
-    tmp_parent = os.environ.get('VERIF_TMP') or os.path.join(HERE, '.tmp')
+    tmp_parent = os.environ.get('VERIF_TMP') or default_tmp()
     os.makedirs(tmp_parent, exist_ok=True)
     tmp = tempfile.mkdtemp(prefix=f'{prop}_', dir=tmp_parent)
     known = load_known_findings()
@@ -166,7 +173,7 @@ def check_main(prop: str, tier: str) -> int:
     def on_result(job, res):
         if res.get('harness_timeout'):
             agg['timeouts'] += 1
-            agg['harness_errors'].append({'key': str(job.key), 'error': 'HARNESS-TIMEOUT'})
+            agg['harness_errors'].append({'key': str(job.key), 'error': 'HARNESS-TIMEOUT', 'traceback': res.get('stack')})
             return
         if res.get('harness_error'):
             agg['harness_errors'].append({'key': str(job.key), 'error': res['harness_error'], 'traceback': res.get('traceback')})
@@ -226,7 +233,7 @@ def check_main(prop: str, tier: str) -> int:
 
     # phase C: determinism self-check (same seed twice in this batch + fresh interpreter, other hash seed)
     det = {'seeds': 0, 'mismatch_same_process': 0, 'mismatch_fresh_interpreter': 0}
-    if not agg['violations'] or True:
+    if int(os.environ.get('VERIF_DET_SEEDS', eng.DET_SEEDS[tier])) > 0:
         n_det = int(os.environ.get('VERIF_DET_SEEDS', eng.DET_SEEDS[tier]))
         seeds = [run_seed_for(prop, batch_seed, i) for i in range(n_det)]
         seeds = [s for s in seeds if s in digests_by_seed]
@@ -249,7 +256,7 @@ def check_main(prop: str, tier: str) -> int:
     reported = []
     known_seen = []
     seen = set()
-    rp_dir = os.path.join(HERE, 'replays', prop)
+    rp_dir = os.path.join(os.environ.get('VERIF_REPLAY_DIR') or os.path.join(HERE, 'replays'), prop)
     pshr = ForkPool(child_fn(eng, tier), 1, tmp, per_run_timeout=pool.per_run_timeout)
     for item in agg['violations']:
         v = item['violation']
@@ -338,8 +345,9 @@ def check_main(prop: str, tier: str) -> int:
         'wall_s': round(wall, 2),
         'violations': len(reported),
     }
-    os.makedirs(os.path.join(HERE, 'evidence'), exist_ok=True)
-    evp = os.path.join(HERE, 'evidence', f'{prop}.json')
+    evdir = os.path.join(HERE, 'evidence') if os.environ.get('VERIF_NO_EVIDENCE') != '1' else tmp_parent
+    os.makedirs(evdir, exist_ok=True)
+    evp = os.path.join(evdir, f'{prop}.json')
     with open(evp + '.tmp', 'w') as f:
         json.dump(ev, f, indent=1, sort_keys=False)
     os.replace(evp + '.tmp', evp)
